@@ -56,7 +56,8 @@ ASSUMPTIONS = ["internal terms only (kwargs_formula external_terms=False); model
 MIN_NONTRIVIAL = {"quick": 2, "thorough": 10}
 
 PASS = {"default": 0.05, "nldrude": 0.10, "nldrude_d2": 0.15}
-CLEAR = {"default": 0.25, "nldrude": 0.30, "nldrude_d2": 0.35}
+CLEAR = {"default": 0.25, "nldrude": 0.35, "nldrude_d2": 0.35}
+D2_SPREAD = 0.10      # largest difference between the plain-sum and the tetrahedron f'' results for which that form is judged
 GUARD = 0.3
 CONV = 0.06      # sum of the two calculators' changes between the coarse and the judged grid that still counts as converged
 
@@ -140,7 +141,7 @@ def calculators(case, Ef, smoother):
         gme_spin_sea=static.GME_spin_FermiSea(**kw), gme_spin_surf=static.GME_spin_FermiSurf(**kw),
         gme_orb_sea=static.GME_orb_FermiSea(**kw, **it), gme_orb_surf=static.GME_orb_FermiSurf(**kw, **it),
         nldrude_sea=static.NLDrude_FermiSea(**kw), nldrude_surf=static.NLDrude_FermiSurf(**kw),
-        nldrude_d2=static.NLDrude_Fermider2(**kw_nt))
+        nldrude_d2=static.NLDrude_Fermider2(**kw_nt), nldrude_d2t=static.NLDrude_Fermider2(**kw))
 
 
 # (name, sea key, partner key, transposition that must be distinguishable or None for symmetric tensors)
@@ -207,6 +208,9 @@ class Evaluation:
                 raise Violation(f"{name}:shape", f"{ka} {A.shape} vs {kb} {B.shape}")
             self.out[name] = dict(rel=rel(A, B), flip=rel(A, -B), transp=(rel(A, np.transpose(B, tr)) if tr else None),
                                   scale=max(maxabs(A), maxabs(B)))
+        # the f'' form converges much more slowly than the others (plain sum: needs k-spacing*velocity << kT; tetrahedron:
+        # discontinuous second-derivative weights); it is judged only where its two discretisations agree with each other
+        self.d2_spread = rel(self.data["nldrude_d2"][self.sl], self.data["nldrude_d2t"][self.sl])
         self._conv = None
 
     def conv(self, name):
@@ -223,6 +227,7 @@ def check(case):
     ev = Evaluation(case)
     out, info = ev.out, ev.info
     margin, unconverged, blind = [], [], []
+    d2_status = "d2:agrees"
     for name, _, _, tr in PAIRS:
         r = out[name]
         p_ok = PASS.get(name, PASS["default"])
@@ -231,6 +236,9 @@ def check(case):
             raise Violation(f"{name}:not-finite", "result contains NaN/inf")
         if r["scale"] == 0:
             blind.append(name)
+            continue
+        if name == "nldrude_d2" and not ev.d2_spread <= D2_SPREAD:
+            d2_status = "d2:unresolved"
             continue
         if r["rel"] > p_clear:
             cv = ev.conv(name)
@@ -247,6 +255,12 @@ def check(case):
             margin.append(name)
         if tr is not None and r["transp"] <= GUARD:
             blind.append(name)
+    if "nldrude_d2" in unconverged:
+        unconverged.remove("nldrude_d2")
+        d2_status = "d2:not-converged"
+    if "nldrude_d2" in margin:
+        margin.remove("nldrude_d2")
+        d2_status = "d2:inside-margin"
     if unconverged:
         raise Inconclusive("not converged: " + ",".join(unconverged))
     if margin:
@@ -255,8 +269,7 @@ def check(case):
     worst = max(out[n]["rel"] for n, *_ in PAIRS if n not in ("nldrude_d2", "nldrude"))
     return ok(nt, f"dim={case['dim']}", f"nw={case['nw']}", f"ss={case['ss']}", f"use_factor={case['use_factor']}",
               case["lat"]["kind"], "rel<1%" if worst < 0.01 else ("rel<2.5%" if worst < 0.025 else "rel<5%"),
-              "nldrude<5%" if out["nldrude"]["rel"] < 0.05 else "nldrude<10%",
-              "d2<5%" if out["nldrude_d2"]["rel"] < 0.05 else "d2<15%",
+              "nldrude<5%" if out["nldrude"]["rel"] < 0.05 else "nldrude<10%", d2_status,
               ("blind:" + ",".join(blind)) if blind else "all-pairs-discriminating")
 
 
